@@ -5,6 +5,7 @@ import Gimli.Model.Pub
 import Gimli.Model.Names
 import Gimli.Model.Indexed
 import Gimli.Model.Loader
+import Gimli.Model.Bases
 /-! Line-protocol operations for C17 (accelerated lookups and section plumbing). The Rust side
 answering the same lines from the real crate is `harness/src/prop/c17.rs`. A trailing `exp`
 argument (the generator's own expectation, used by the Rust-side oracle only) is ignored here. -/
@@ -232,6 +233,25 @@ def handle (op : String) (args : List String) : Option String :=
         debugStr := st, debugLineStr := lst, debugStrOffsets := so, debugAddr := ad,
         supDebugStr := sup }
       pure s!"ok s={outS toHex (Indexed.attrString c av)}|a={outS (optS toString) (Indexed.attrAddress c av)}"
+  | "ub", [e, f, ver, ft, asz, attrs, st, so, ad, nidx, _] => do
+      let e ← endian? e; let f ← format? f; let ver ← ver.toNat?; let asz ← asz.toNat?; let nidx ← nidx.toNat?
+      let ft : Bases.FileType ← match ft with
+        | "main" => some .main
+        | "dwo" => some .dwo
+        | "dwp" => some .dwo   -- `DwarfPackage::sections` hands out `file_type = Dwo`
+        | _ => none
+      let st ← parseHex st; let so ← parseHex so; let ad ← parseHex ad
+      let attrs : List (Nat × Nat) ← if attrs == "-" then some [] else
+        (attrs.splitOn ",").mapM fun t => match t.splitOn ":" with
+          | [a, b] => do let a ← a.toNat?; let b ← b.toNat?; pure (a, b)
+          | _ => none
+      let b := Bases.unitBases ver f ft attrs
+      let sv := (rangeList nidx).map fun i => outS toString (Bases.stringOffset e f b so i)
+      let tv := (rangeList nidx).map fun i => outS toHex (do
+        let off ← Bases.stringOffset e f b so i
+        Names.getStr st off)
+      let av := (rangeList nidx).map fun i => outS toString (Bases.address e asz b ad i)
+      pure s!"ok B={b.strOffsets}:{b.addr}:{b.loclists}:{b.rnglists}|S={join "," sv}|T={join "," tv}|A={join "," av}"
   | "djb-ascii", [h] => do
       let bs ← parseHex h
       -- `case_folding_djb_hash` restricted to ASCII input (`to_ascii_lowercase`, then `hash*33 + byte`)
